@@ -27,6 +27,19 @@ Proof.
   rewrite (Nat.eqb_sym g x). destruct (Nat.eqb x g); cbn [orb]; [discriminate|]. exact IH.
 Qed.
 
+Lemma remove_all_all g l : forallb (Nat.eqb g) l = true -> remove_all g l = [].
+Proof.
+  induction l as [|x r IH]; cbn [forallb remove_all]; [reflexivity|].
+  intros H. apply andb_true_iff in H. destruct H as [H1 H2]. rewrite (Nat.eqb_sym x g), H1. exact (IH H2).
+Qed.
+
+Lemma in_remove_all g x l : In g l -> g <> x -> In g (remove_all x l).
+Proof.
+  induction l as [|y r IH]; cbn [In remove_all]; [tauto|]. intros [->|H] N.
+  - destruct (Nat.eqb_spec g x); [contradiction|]. left. reflexivity.
+  - destruct (Nat.eqb y x); [exact (IH H N)|right; exact (IH H N)].
+Qed.
+
 (* ---- the invariant ------------------------------------------------------ *)
 
 Lemma wf_init sw : wf sw init.
@@ -43,7 +56,7 @@ Ltac bools :=
   | H : context [Nat.leb ?a ?b] |- _ => destruct (Nat.leb_spec a b)
   end; cbn [b2n andb orb negb] in *.
 
-Ltac projs := cbn [ph closer cli_open gen started sconn pending fired waiters established last_start] in *.
+Ltac projs := cbn [ph closer cli_open gen started sconn pending fired waiters established last_start runners] in *.
 
 Ltac split_ifs :=
   repeat match goal with
@@ -67,8 +80,8 @@ Ltac small :=
 
 Lemma step_wf sw s a : wf sw s -> wf sw (step sw s a).
 Proof.
-  intros [Hcl Hcli Htok Hconn Hst Hwa].
-  destruct s as [gen0 st0 conn0 ph0 cli0 pend0 closer0 fired0 est0 wait0 last0].
+  intros [Hcl Hcli Htok Hconn Hst Hwa Hrun].
+  destruct s as [gen0 st0 conn0 ph0 cli0 pend0 closer0 fired0 est0 wait0 last0 run0].
   unfold tokens in Htok. projs.
   destruct a; destruct ph0; cbn [step ph]; try (split; assumption);
     projs; try (rewrite Hcl in * ); try (rewrite Hcli in * ); try (rewrite Hwa in * );
@@ -77,7 +90,11 @@ Proof.
   all: split; unfold tokens; projs; try exact I; try (small; fail).
   all: try (tok Htok; fail).
   all: try (repeat match goal with H : ?x = true |- context [?x] => rewrite H end; rewrite ?orb_true_r; reflexivity).
-  all: intros D; try (specialize (Hconn D)); try discriminate; try assumption; try congruence.
+  all: intros D; try (specialize (Hconn D)); try (specialize (Hrun D)); try discriminate; try assumption; try congruence.
+  all: try (apply remove_all_all; first [assumption | apply Hrun; reflexivity]).
+  all: try (rewrite Hrun; reflexivity).
+  all: try (cbn [forallb]; rewrite Nat.eqb_refl; assumption).
+  all: try (rewrite D in *; discriminate).
 Qed.
 
 Lemma run_wf sw l : forall s, wf sw s -> wf sw (run sw s l).
@@ -108,8 +125,8 @@ Lemma start_progress sw s :
   wait_cfg_unguarded sw = false -> results_sent sw -> wf sw s -> start_pending s = true ->
   enabled_env sw s <> [] /\ forall a, In a (enabled_env sw s) -> rank (step sw s a) < rank s.
 Proof.
-  intros G [U1 [U2 U3]] [_ _ _ Hconn _ _].
-  destruct s as [gen0 st0 conn0 ph0 cli0 pend0 closer0 fired0 est0 wait0 last0]. projs.
+  intros G [U1 [U2 U3]] [_ _ _ Hconn _ _ _].
+  destruct s as [gen0 st0 conn0 ph0 cli0 pend0 closer0 fired0 est0 wait0 last0 run0]. projs.
   unfold start_pending, enabled_env, rank. projs.
   destruct ph0; try discriminate; intros _.
   - split; [discriminate|]. intros a [<-|[<-|[]]]; cbn; lia.
@@ -134,7 +151,7 @@ Lemma start_progress_partial sw s :
     ph (step sw s a) = AwaitLost.
 Proof.
   intros _.
-  destruct s as [gen0 st0 conn0 ph0 cli0 pend0 closer0 fired0 est0 wait0 last0]. projs.
+  destruct s as [gen0 st0 conn0 ph0 cli0 pend0 closer0 fired0 est0 wait0 last0 run0]. projs.
   unfold start_pending, enabled_env, rank. projs.
   destruct ph0; try discriminate; intros _.
   - split; [split; [discriminate|intros [[X _]|X]; discriminate]|]. intros a [<-|[<-|[]]]; left; cbn; lia.
@@ -162,7 +179,7 @@ Lemma start_result sw s a :
    hd_error (established s') = Some (gen s')) \/
   (ph s' = Idle /\ last_start s' = Some ResErr /\ started s' = false).
 Proof.
-  destruct s as [gen0 st0 conn0 ph0 cli0 pend0 closer0 fired0 est0 wait0 last0].
+  destruct s as [gen0 st0 conn0 ph0 cli0 pend0 closer0 fired0 est0 wait0 last0 run0].
   unfold start_pending at 1. projs.
   destruct ph0; try discriminate; intros _; destruct a; cbn [step ph sconn];
     try (intros X; discriminate X);
@@ -184,7 +201,7 @@ Lemma stuck_step sw s a :
   ph (step sw s a) = AwaitConfigure /\ conn_live (sconn (step sw s a)) = false /\ fired (step sw s a) = fired s.
 Proof.
   intros G.
-  destruct s as [gen0 st0 conn0 ph0 cli0 pend0 closer0 fired0 est0 wait0 last0]. projs.
+  destruct s as [gen0 st0 conn0 ph0 cli0 pend0 closer0 fired0 est0 wait0 last0 run0]. projs.
   intros -> L. destruct a; cbn [step ph sconn]; rewrite ?L, ?G; projs; try (repeat split; assumption).
   unfold emit_close; projs. destruct cli0; projs; destruct conn0; cbn in *; repeat split; try reflexivity; discriminate.
 Qed.
@@ -201,7 +218,7 @@ Qed.
 
 Lemma waiters_only_in_session sw s : wf sw s -> waiters s <> [] -> ph s = Configured \/ ph s = Closing.
 Proof.
-  intros [_ _ _ _ _ Hwa] W. destruct (ph s); auto; contradiction.
+  intros [_ _ _ _ _ Hwa _] W. destruct (ph s); auto; contradiction.
 Qed.
 
 Lemma memn_app_last g l : memn g (l ++ [g]) = true.
@@ -211,7 +228,7 @@ Lemma wait_released_stop sw s :
   ph s = Configured ->
   let s' := run sw s [AStop; IServeDone] in ph s' = Idle /\ waiters s' = [] /\ started s' = false /\ sconn s' = CNone.
 Proof.
-  destruct s as [gen0 st0 conn0 ph0 cli0 pend0 closer0 fired0 est0 wait0 last0]. projs. intros ->.
+  destruct s as [gen0 st0 conn0 ph0 cli0 pend0 closer0 fired0 est0 wait0 last0 run0]. projs. intros ->.
   cbn. repeat split.
 Qed.
 
@@ -221,7 +238,7 @@ Lemma lost_step sw s :
   ph s1 = Configured /\ pending s1 = pending s ++ [gen s] /\ gen s1 = gen s /\ fired s1 = fired s /\
   cli_open s1 = false /\ started s1 = started s /\ waiters s1 = waiters s.
 Proof.
-  destruct s as [gen0 st0 conn0 ph0 cli0 pend0 closer0 fired0 est0 wait0 last0]. projs. intros -> ->.
+  destruct s as [gen0 st0 conn0 ph0 cli0 pend0 closer0 fired0 est0 wait0 last0 run0]. projs. intros -> ->.
   cbn [step ph]. unfold emit_close. projs. cbn zeta. repeat split.
 Qed.
 
@@ -230,7 +247,7 @@ Lemma deliver_own sw s :
   let s2 := step sw s (ADeliver (gen s)) in
   ph s2 = Closing /\ closer s2 = Some (gen s) /\ fired s2 = fired s.
 Proof.
-  destruct s as [gen0 st0 conn0 ph0 cli0 pend0 closer0 fired0 est0 wait0 last0]. projs. intros -> M.
+  destruct s as [gen0 st0 conn0 ph0 cli0 pend0 closer0 fired0 est0 wait0 last0 run0]. projs. intros -> M.
   cbn [step ph pending gen]. rewrite M, Nat.eqb_refl. cbn [orb]. unfold begin_close, emit_close. projs.
   destruct cli0; cbn zeta; projs; repeat split.
 Qed.
@@ -241,7 +258,7 @@ Lemma serve_done_step sw s :
   ph s3 = Idle /\ waiters s3 = [] /\ started s3 = false /\ sconn s3 = CNone /\
   fired s3 = match closer s with Some g => g :: fired s | None => fired s end.
 Proof.
-  destruct s as [gen0 st0 conn0 ph0 cli0 pend0 closer0 fired0 est0 wait0 last0]. projs. intros ->.
+  destruct s as [gen0 st0 conn0 ph0 cli0 pend0 closer0 fired0 est0 wait0 last0 run0]. projs. intros ->.
   cbn [step ph]. cbn zeta. projs. repeat split.
 Qed.
 
@@ -268,7 +285,7 @@ Lemma deliver_idle_hd sw s g r :
   ph s1 = Idle /\ pending s1 = r /\ fired s1 = g :: fired s /\ started s1 = started s /\ sconn s1 = sconn s /\
   waiters s1 = waiters s /\ gen s1 = gen s /\ cli_open s1 = cli_open s.
 Proof.
-  destruct s as [gen0 st0 conn0 ph0 cli0 pend0 closer0 fired0 est0 wait0 last0]. projs. intros -> ->.
+  destruct s as [gen0 st0 conn0 ph0 cli0 pend0 closer0 fired0 est0 wait0 last0 run0]. projs. intros -> ->.
   cbn [step ph pending]. unfold memn. cbn [existsb remove_first]. rewrite Nat.eqb_refl. cbn [orb]. cbn zeta. projs.
   repeat split.
 Qed.
@@ -300,14 +317,14 @@ Qed.
 
 Lemma close_at_most_once sw s g : wf sw s -> count_occ_nat g (fired s) <= 1.
 Proof.
-  intros [_ _ Htok _ _ _]. specialize (Htok g). unfold tokens in Htok.
+  intros [_ _ Htok _ _ _ _]. specialize (Htok g). unfold tokens in Htok.
   destruct (Nat.leb 1 g && Nat.leb g (gen s)); cbn [b2n] in Htok; lia.
 Qed.
 
 Lemma close_exactly_once_when_settled sw s g :
   wf sw s -> ph s = Idle -> pending s = [] -> 1 <= g <= gen s -> count_occ_nat g (fired s) = 1.
 Proof.
-  intros [Hcl Hcli Htok _ _ _] P E Hg. specialize (Htok g). unfold tokens in Htok.
+  intros [Hcl Hcli Htok _ _ _ _] P E Hg. specialize (Htok g). unfold tokens in Htok.
   rewrite P in Hcl, Hcli. rewrite Hcl, Hcli, E in Htok. cbn [count_occ_nat andb b2n] in Htok.
   destruct (Nat.leb_spec 1 g) as [A|A]; [|lia]. destruct (Nat.leb_spec g (gen s)) as [B|B]; [|lia].
   cbn [andb b2n] in Htok. lia.
@@ -322,8 +339,8 @@ Lemma restart_works sw s :
   gen s' = S (gen s) /\ sconn s' = CLive (S (gen s)) /\ cli_open s' = true /\
   hd_error (established s') = Some (gen s') /\ pending s' = pending s /\ fired s' = fired s.
 Proof.
-  intros D U [_ _ _ Hconn _ _] P. rewrite P in Hconn. specialize (Hconn D).
-  destruct s as [gen0 st0 conn0 ph0 cli0 pend0 closer0 fired0 est0 wait0 last0]. projs. subst.
+  intros D U [_ _ _ Hconn _ _ _] P. rewrite P in Hconn. specialize (Hconn D).
+  destruct s as [gen0 st0 conn0 ph0 cli0 pend0 closer0 fired0 est0 wait0 last0 run0]. projs. subst.
   cbn. rewrite U. cbn. repeat split.
 Qed.
 
@@ -335,7 +352,7 @@ Lemma restart_works_partial sw s :
   ph s' = Configured /\ started s' = true /\ last_start s' = Some ResOk /\ sconn s' = CLive (S (gen s)).
 Proof.
   intros U.
-  destruct s as [gen0 st0 conn0 ph0 cli0 pend0 closer0 fired0 est0 wait0 last0]. projs. intros -> ->.
+  destruct s as [gen0 st0 conn0 ph0 cli0 pend0 closer0 fired0 est0 wait0 last0 run0]. projs. intros -> ->.
   cbn. rewrite U. cbn. repeat split.
 Qed.
 
@@ -346,7 +363,7 @@ Lemma stale_harmless sw s g :
   same_session s (step sw s (ADeliver g)).
 Proof.
   intros F F2 P N.
-  destruct s as [gen0 st0 conn0 ph0 cli0 pend0 closer0 fired0 est0 wait0 last0]. projs. subst.
+  destruct s as [gen0 st0 conn0 ph0 cli0 pend0 closer0 fired0 est0 wait0 last0 run0]. projs. subst.
   cbn [step ph]. projs. rewrite F, F2. destruct (Nat.eqb_spec g gen0); [contradiction|]. cbn [orb andb].
   destruct (memn g pend0); unfold same_session; projs; repeat split.
 Qed.
@@ -354,7 +371,7 @@ Qed.
 Lemma idle_delivery_harmless sw s g : ph s = Idle -> same_session s (step sw s (ADeliver g)).
 Proof.
   intros P.
-  destruct s as [gen0 st0 conn0 ph0 cli0 pend0 closer0 fired0 est0 wait0 last0]. projs. subst.
+  destruct s as [gen0 st0 conn0 ph0 cli0 pend0 closer0 fired0 est0 wait0 last0 run0]. projs. subst.
   cbn [step ph]. projs. destruct (memn g pend0); unfold same_session; projs; repeat split.
 Qed.
 
@@ -368,14 +385,14 @@ Proof.
   - cbn. unfold same_session. repeat split.
   - cbn [drain]. rewrite P. destruct (pending s) as [|g r] eqn:E; [unfold same_session; repeat split|].
     assert (g <> gen s) as N.
-    { destruct W as [_ _ Htok _ _ _]. specialize (Htok (gen s)). unfold tokens in Htok.
+    { destruct W as [_ _ Htok _ _ _ _]. specialize (Htok (gen s)). unfold tokens in Htok.
       rewrite C, E, Nat.eqb_refl in Htok. cbn [andb b2n count_occ_nat] in Htok.
       destruct (Nat.eqb_spec g (gen s)) as [->|]; [|assumption].
       destruct (Nat.leb 1 (gen s) && Nat.leb (gen s) (gen s)); cbn [b2n] in Htok; lia. }
-    pose proof (stale_harmless sw s g F F2 P N) as [A [B [C' [D [E' [F' [G H]]]]]]].
+    pose proof (stale_harmless sw s g F F2 P N) as [A [B [C' [D [E' [F' [G [H R]]]]]]]].
     pose proof (step_wf sw s (ADeliver g) W) as W'.
     specialize (IH (step sw s (ADeliver g)) F F2 W' ltac:(congruence) ltac:(congruence)).
-    destruct IH as [A1 [B1 [C1 [D1 [E1 [F1 [G1 H1]]]]]]].
+    destruct IH as [A1 [B1 [C1 [D1 [E1 [F1 [G1 [H1 R1]]]]]]]].
     unfold same_session. repeat split; congruence.
 Qed.
 
@@ -402,7 +419,7 @@ Lemma dead_conn_step s g :
   let s' := run_start pinned s BHealthy in
   ph s' = Idle /\ sconn s' = CDead g /\ started s' = false /\ last_start s' = Some ResErr.
 Proof.
-  destruct s as [gen0 st0 conn0 ph0 cli0 pend0 closer0 fired0 est0 wait0 last0]. projs. intros -> ->.
+  destruct s as [gen0 st0 conn0 ph0 cli0 pend0 closer0 fired0 est0 wait0 last0 run0]. projs. intros -> ->.
   cbn. repeat split.
 Qed.
 
@@ -470,7 +487,7 @@ Proof. vm_compute. repeat split. Qed.
 Lemma await_lost_step sw s a :
   ph s = AwaitLost -> a <> EConnLost -> step sw s a = s.
 Proof.
-  destruct s as [gen0 st0 conn0 ph0 cli0 pend0 closer0 fired0 est0 wait0 last0]. projs. intros -> N.
+  destruct s as [gen0 st0 conn0 ph0 cli0 pend0 closer0 fired0 est0 wait0 last0 run0]. projs. intros -> N.
   destruct a; try reflexivity. contradiction.
 Qed.
 
@@ -492,4 +509,111 @@ Proof.
   split; [reflexivity|]. split; [reflexivity|]. split; [reflexivity|]. intros l' N.
   rewrite (await_lost_run reject_unsent l' (run reject_unsent init (start_actions BCfgReject)) eq_refl N).
   split; reflexivity.
+Qed.
+
+(* ---- Run ------------------------------------------------------------------- *)
+
+(* a Run call is blocked only while its session is established or being closed *)
+Lemma runners_only_in_session sw s :
+  close_takes_srv_result sw = false -> wf sw s -> runners s <> [] -> ph s = Configured \/ ph s = Closing.
+Proof.
+  intros D [_ _ _ _ _ _ Hrun] R. specialize (Hrun D). destruct (ph s); auto; contradiction.
+Qed.
+
+Lemma run_released_stop sw s :
+  close_takes_srv_result sw = false -> wf sw s -> ph s = Configured ->
+  let s' := run sw s [AStop; IServeDone] in
+  ph s' = Idle /\ runners s' = [] /\ waiters s' = [] /\ started s' = false /\ lock_free s' = true.
+Proof.
+  intros D [_ _ _ _ _ _ Hrun] P. specialize (Hrun D). rewrite P in Hrun.
+  destruct s as [gen0 st0 conn0 ph0 cli0 pend0 closer0 fired0 est0 wait0 last0 run0]. projs. subst.
+  unfold run. cbn [fold_left step ph]. unfold begin_close, emit_close. projs.
+  destruct cli0; cbn [step ph]; projs; rewrite D, (remove_all_all gen0 run0 Hrun); repeat split.
+Qed.
+
+Lemma serve_done_runners sw s :
+  close_takes_srv_result sw = false -> ph s = Closing -> forallb (Nat.eqb (gen s)) (runners s) = true ->
+  runners (step sw s IServeDone) = [].
+Proof.
+  destruct s as [gen0 st0 conn0 ph0 cli0 pend0 closer0 fired0 est0 wait0 last0 run0]. projs. intros D -> H.
+  cbn [step ph]. projs. rewrite D. exact (remove_all_all gen0 run0 H).
+Qed.
+
+Lemma run_released_loss sw s :
+  close_takes_srv_result sw = false -> wf sw s -> ph s = Configured -> cli_open s = true ->
+  let s' := run sw s [EConnLost; ADeliver (gen s); IServeDone] in
+  ph s' = Idle /\ runners s' = [] /\ waiters s' = [] /\ started s' = false.
+Proof.
+  intros D W P C.
+  destruct (wait_released_loss sw s P C) as [P3 [W3 [S3 _]]]. cbn zeta in *.
+  repeat split; try assumption.
+  unfold run in *. cbn [fold_left] in *.
+  pose proof (step_wf sw _ (ADeliver (gen s)) (step_wf sw s EConnLost W)) as W2.
+  destruct (lost_step sw s P C) as [P1 [E1 [G1 _]]].
+  set (s1 := step sw s EConnLost) in *.
+  assert (memn (gen s1) (pending s1) = true) as M by (rewrite E1, G1; apply memn_app_last).
+  rewrite <- G1 in *.
+  destruct (deliver_own sw s1 P1 M) as [P2 _].
+  set (s2 := step sw s1 (ADeliver (gen s1))) in *.
+  destruct W2 as [_ _ _ _ _ _ Hrun]. specialize (Hrun D). rewrite P2 in Hrun.
+  exact (serve_done_runners sw s2 D P2 Hrun).
+Qed.
+
+(* ---- the variant whose close() receives from srvErrC ------------------------ *)
+
+Lemma closing_stuck_step sw s a : ph s = ClosingStuck -> step sw s a = s.
+Proof.
+  destruct s as [gen0 st0 conn0 ph0 cli0 pend0 closer0 fired0 est0 wait0 last0 run0]. projs. intros ->.
+  destruct a; reflexivity.
+Qed.
+
+Lemma closing_stuck_run sw l : forall s, ph s = ClosingStuck -> run sw s l = s.
+Proof.
+  unfold run. induction l as [|a r IH]; intros s P; cbn [fold_left]; [reflexivity|].
+  rewrite (closing_stuck_step sw s a P). exact (IH s P).
+Qed.
+
+(* a Run call left behind on an ended session stays blocked whatever happens *)
+Definition stale_runner (g : nat) (s : state) : Prop :=
+  In g (runners s) /\ g <= gen s /\
+  (g < gen s \/ match ph s with Idle | Dialing | MuxUp => True | _ => False end).
+
+Lemma stale_runner_step sw s a g :
+  close_takes_srv_result sw = true -> stale_runner g s -> stale_runner g (step sw s a).
+Proof.
+  intros D [I [L O]].
+  destruct s as [gen0 st0 conn0 ph0 cli0 pend0 closer0 fired0 est0 wait0 last0 run0]. projs.
+  destruct a; destruct ph0; cbn [step ph]; try (split; [exact I|split; [exact L|exact O]]);
+    unfold fail_start, begin_close, emit_close, set_ph, kill; projs; split_ifs; projs;
+    unfold stale_runner; projs;
+    try (split; [exact I|split; [exact L|exact O]]);
+    try (split; [first [exact I | right; exact I]|split; [lia|first [right; exact Logic.I | left; lia | exact O | destruct O as [O|[]]; left; lia]]]).
+  all: try (destruct O as [O|[]]; split; [apply in_remove_all; [exact I|lia]|split; [lia|left; lia]]).
+  all: try (rewrite D in *; discriminate).
+Qed.
+
+Lemma stale_runner_run sw l g : forall s,
+  close_takes_srv_result sw = true -> stale_runner g s -> stale_runner g (run sw s l).
+Proof.
+  unfold run. induction l as [|a r IH]; intros s D H; cbn [fold_left]; [exact H|].
+  apply IH; [exact D|]. exact (stale_runner_step sw s a g D H).
+Qed.
+
+Lemma run_or_stop_hangs_refuted :
+  exists l, reachable srv_result_shared (run srv_result_shared init l) /\
+    let s := run srv_result_shared init l in
+    ph s = Closing /\ runners s = [1] /\
+    (* the teardown gets the server result: Stop returns, Run never does *)
+    (let s1 := step srv_result_shared s IServeDone in
+     ph s1 = Idle /\ forall l', In 1 (runners (run srv_result_shared s1 l'))) /\
+    (* Run gets it: Run returns, Stop never does and keeps the lock *)
+    (let s2 := step srv_result_shared s IRunTakes in
+     runners s2 = [] /\ forall l', lock_free (run srv_result_shared s2 l') = false).
+Proof.
+  exists (healthy_start ++ [ARunWait; AStop]). split; [eexists; reflexivity|]. cbn zeta.
+  split; [reflexivity|]. split; [reflexivity|]. split.
+  - split; [reflexivity|]. intros l'.
+    apply (stale_runner_run srv_result_shared l' 1 _ eq_refl).
+    vm_compute. split; [left; reflexivity|]. split; [lia|right; exact I].
+  - split; [reflexivity|]. intros l'. rewrite closing_stuck_run by reflexivity. reflexivity.
 Qed.
